@@ -231,10 +231,19 @@ func genC16(r *common.RNG, id string) (*Case, *c16Expect) {
 			c.Lines = append(c.Lines, "cd $WORK/"+to)
 		}
 	}
+	// `#` phase lines: first line, between the comparisons (also several in a row), last line
+	phase := func(p, q int) {
+		for r.Chance(p, q) {
+			c.Lines = append(c.Lines, pick(r, []string{"# phase", "#", "# compare the next golden file", "#" + fmt.Sprint(len(c.Lines))}))
+			p, q = 1, 3
+		}
+	}
+	phase(1, 2)
 	for i, name := range order {
 		if failed && !c.Coe {
 			break
 		}
+		phase(1, 2)
 		want := golden[name]
 		kind := r.Intn(12)
 		if classy {
@@ -340,8 +349,10 @@ func genC16(r *common.RNG, id string) (*Case, *c16Expect) {
 			c.Lines = append(c.Lines, pick(r, []string{"env X=1", "! stdout nomatch-zzz", "[windows] cd nowhere", "", "exec " + helperName + " echo between", "! exec " + helperName + " exit 3"}))
 		}
 	}
+	phase(1, 3)
 	if r.Chance(1, 10) {
 		c.Lines = append(c.Lines, pick(r, []string{"stop", "skip"}))
+		phase(1, 4)
 	}
 	return c, ex
 }
@@ -429,8 +440,12 @@ func (rn *runner) c16Oracle(c *Case, ex *c16Expect, o *Obs) (string, string) {
 	wantVerdict := "pass"
 	if len(ex.FailLines) > 0 {
 		wantVerdict = "fail"
-	} else if len(c.Lines) > 0 && strings.HasPrefix(c.Lines[len(c.Lines)-1], "skip") {
-		wantVerdict = "skip"
+	} else {
+		for _, l := range c.Lines {
+			if l == "skip" {
+				wantVerdict = "skip"
+			}
+		}
 	}
 	if o.Verdict != wantVerdict {
 		return "update-run-verdict", fmt.Sprintf("want %s, got %s", wantVerdict, o.Verdict)
